@@ -1,7 +1,7 @@
 from pat import *
 from expr import fmt, walk
 from harness import Skip
-from rules.common import adapters_in, calls_named, req, all_terms
+from rules.common import adapters_in, calls_named, req, all_terms, S
 
 INFO = {
     "explanation": "Static structural rules over MIR (feature `multithreaded` enabled) for the only parallel construct in the "
@@ -109,8 +109,13 @@ def run(ctx):
                 block = adds[0][0]
             s2 = ctx.loop_source(fs, _E2)
             a = adds[0][1]
-            good = s2 is not None and Agg("Range", Lit(0), Len(Local(2)))(s2) and Index(Local(2))(a[2][0]) and \
+            it2 = Field(Call("next"), name="0", variant="Some")
+            by_index = s2 is not None and Agg("Range", Lit(0), Len(Local(2)))(s2) and Index(Local(2))(a[2][0]) and \
                 Index(lambda x: x == buf)(a[2][1]) and a[2][0][2] == a[2][1][2]
+            # or pairwise: for (o, p) in outp.iter_mut().zip(partial.iter()) { *o += *p }   (partial has len(outp) elements: binit)
+            by_zip = s2 is not None and Call("zip", S(Local(2)), S(lambda x: x == buf))(s2) and adapters_in(s2) == [] and \
+                S(Field(it2, name="0"))(a[2][0]) and S(Field(it2, name="1"))(a[2][1])
+            good = by_index or by_zip
         else:
             good = False
         # outp zeroed first
